@@ -122,7 +122,7 @@ def check_events(sysdef, res, grid=None):
                 if (m, prev) in pos:
                     want = step_fudge * (sizes.get((m, k), 0) + sizes.get((m, prev), 0)) / 2.0
                     got = np.linalg.norm(min_image(p - pos[(m, prev)], box))
-                    if abs(got - want) > 1e-9:
+                    if not abs(got - want) <= 1e-9:      # also true for nan / inf
                         bad("C05", "one-step-from-parent", f"residue {(m, k)} at {p}: minimum-image distance {got} to parent {prev} at {pos[(m, prev)]}, step {want}")
             else:
                 att = cur_attempt.get(m)
